@@ -5,6 +5,7 @@ import I18n.Lemmas.MsgRangeCount
 import I18n.Lemmas.MsgRegex
 import I18n.Lemmas.MsgFormatDecl
 import I18n.Lemmas.MsgFileLevel
+import I18n.Spec.StringFormatsRef
 /-
 C16 — message-level diagnostics match their documented conditions.
 
@@ -640,14 +641,32 @@ theorem conflict_marker_pin :
     Generated.StringFormats.conflictPrefix = lit "#-#-#-#-#  " ∧ Generated.StringFormats.conflictSuffix = lit "  #-#-#-#-#" := by
   decide
 
-/-- PIN: the `range:` flag syntax, the flag prefixes and the conflict pairs -/
+/-- PIN: the `range:` flag syntax; the flag prefixes and the conflict pairs AS SETS (their order in the source is immaterial:
+    the pairs are independent rules, and by `prefixes_unambiguous` at most one prefix can classify a flag) -/
 theorem flag_syntax_pin :
     Generated.StringFormats.rangePrefix = lit "range:" ∧ Generated.StringFormats.rangeSep = lit ".." ∧
     Generated.StringFormats.rangeStrip = [32, 9, 13, 12, 11] ∧
     Generated.StringFormats.rangeDigits1 = [(48, 57)] ∧ Generated.StringFormats.rangeDigits2 = [(48, 57)] ∧
-    Generated.StringFormats.formatPrefixes = [lit "no-", lit "possible-", lit "impossible-", []] ∧
-    Generated.StringFormats.conflictPairs = [([], lit "no"), ([], lit "impossible"), (lit "possible", lit "impossible")] := by
-  decide
+    (∀ p, p ∈ Generated.StringFormats.formatPrefixes ↔ p ∈ [lit "no-", lit "possible-", lit "impossible-", []]) ∧
+    (∀ pn, pn ∈ Generated.StringFormats.conflictPairs ↔
+      pn ∈ [([], lit "no"), ([], lit "impossible"), (lit "possible", lit "impossible")]) := by
+  refine ⟨by decide, by decide, by decide, by decide, by decide, ?_, ?_⟩
+  · have h1 : Generated.StringFormats.formatPrefixes.all (fun p => [lit "no-", lit "possible-", lit "impossible-", []].contains p) = true := by decide
+    have h2 : [lit "no-", lit "possible-", lit "impossible-", []].all (fun p => Generated.StringFormats.formatPrefixes.contains p) = true := by decide
+    simp only [List.all_eq_true, List.contains_eq_mem, decide_eq_true_eq] at h1 h2
+    exact fun p => ⟨h1 p, h2 p⟩
+  · have h1 : Generated.StringFormats.conflictPairs.all
+        (fun p => [(([] : Str), lit "no"), ([], lit "impossible"), (lit "possible", lit "impossible")].contains p) = true := by decide
+    have h2 : [(([] : Str), lit "no"), ([], lit "impossible"), (lit "possible", lit "impossible")].all
+        (fun p => Generated.StringFormats.conflictPairs.contains p) = true := by decide
+    simp only [List.all_eq_true, List.contains_eq_mem, decide_eq_true_eq] at h1 h2
+    exact fun p => ⟨h1 p, h2 p⟩
+
+/-- PIN: no format name of the data file starts with a non-empty flag prefix — so a flag `<prefix><fmt>-format` has exactly one
+    reading, whatever the order of the prefix loop -/
+theorem prefixes_unambiguous :
+    Generated.StringFormats.stringFormats.all (fun f =>
+      Generated.StringFormats.formatPrefixes.all fun p => p.isEmpty || !startsWith p f.1) = true := by decide
 
 /-- PIN: the XML gate is `type: Content of: ` followed by `<name>`s with the XML 1.0 NameStartChar / NameChar classes -/
 theorem xml_gate_pin :
@@ -728,8 +747,7 @@ theorem format_flag_shape_live {f tp fmt : Str} (h : flagKind liveFlagEnv f = .f
   have hempty : liveFlagEnv.isFormat [] = false := by decide
   obtain ⟨p, hp, h1, h2, h3⟩ := format_flag_shape hempty h
   refine ⟨p, ?_, h1, h2, h3⟩
-  have : liveFlagEnv.prefixes = [lit "no-", lit "possible-", lit "impossible-", []] := flag_syntax_pin.2.2.2.2.2.1
-  rw [← this]; exact hp
+  exact (flag_syntax_pin.2.2.2.2.2.1 p).mp hp
 
 /-- FILE LEVEL (the clause as stated): some entry of the file gets `duplicate-message-definition` ⇔ two non-obsolete,
     non-header entries of the file share msgid and msgctxt -/
@@ -746,6 +764,30 @@ theorem find_unusual_iff (xml : Str → XmlVerdict) (s : Str) (c : Nat) :
   have h := mem_findAllFrom_iff (inRanges Generated.StringFormats.wordRanges) Generated.StringFormats.unusualAlts s none c
   simp only [Option.or_none, unusual_class_documented] at h
   exact h
+
+/-- PIN against the HAND-MAINTAINED reference of the format languages (Spec/StringFormatsRef.lean, not regenerated): every
+    reference format is in data/string-formats, and for every PAIR of reference formats the data file decides "share an example
+    directive" — the test behind `conflicting-message-flags` for two positive format flags — exactly as the reference does.
+    Formats the reference does not list are not compared: adding a format to the data file, or re-ordering it, keeps this true. -/
+theorem string_formats_compat_pin :
+    ∀ a ∈ Spec.StringFormatsRef.names, liveFlagEnv.isFormat a = true ∧
+      ∀ b ∈ Spec.StringFormatsRef.names,
+        shareExample liveFlagEnv a b = Spec.StringFormatsRef.compatible Spec.StringFormatsRef.table a b := by
+  have h : Spec.StringFormatsRef.agrees liveFlagEnv.formats = true := by decide +kernel
+  simp only [Spec.StringFormatsRef.agrees, List.all_eq_true, Bool.and_eq_true, beq_iff_eq] at h
+  intro a ha
+  exact ⟨by simpa [FlagEnv.isFormat] using (h a ha).1, fun b hb => (h a ha).2 b hb⟩
+
+/-- hence, for the running tool's table: two positive flags of reference formats conflict iff the REFERENCE calls the two
+    format languages incompatible -/
+theorem positive_conflict_by_reference {f₁ f₂ : Str} (h₁ : f₁ ∈ Spec.StringFormatsRef.names) (h₂ : f₂ ∈ Spec.StringFormatsRef.names) :
+    shareExample liveFlagEnv f₁ f₂ = false ↔ Spec.StringFormatsRef.compatible Spec.StringFormatsRef.table f₁ f₂ = false := by
+  rw [(string_formats_compat_pin f₁ h₁).2 f₂ h₂]
+
+/-- the reference knows what it claims to: the printf family is pairwise compatible, and e.g. `c` vs `python-brace` is not -/
+example : Spec.StringFormatsRef.compatible Spec.StringFormatsRef.table (lit "c") (lit "boost") = true ∧
+    Spec.StringFormatsRef.compatible Spec.StringFormatsRef.table (lit "c") (lit "python-brace") = false ∧
+    Spec.StringFormatsRef.compatible Spec.StringFormatsRef.table (lit "java") (lit "python-brace") = true := by decide
 
 /-! ## non-vacuity -/
 
